@@ -1842,6 +1842,36 @@ theorem Inv.evSpin {w : World} (h : Inv w) (i k : Nat) : Inv (evSpin w i k).1 :=
     · exact h
     · exact h.spinN i k
 
+theorem Inv.evWCancel {w : World} (h : Inv w) (i k : Nat) : Inv (evWCancel w i k).1 := by
+  unfold Pool.evWCancel
+  split
+  · exact h
+  · split
+    · exact h
+    · split
+      · have h1 := h.evWrite i k
+        generalize Pool.evWrite w i k = r at h1 ⊢
+        obtain ⟨w1, o⟩ := r
+        cases o <;> first | exact h | exact h1.evCancel i
+      · split
+        · exact h
+        · exact (h.evCancel i).evWrite i k
+
+theorem Inv.evWDstream {w : World} (h : Inv w) (i k : Nat) : Inv (evWDstream w i k).1 := by
+  unfold Pool.evWDstream
+  split
+  · exact h
+  · split
+    · exact h
+    · split
+      · have h1 := h.evWrite i k
+        generalize Pool.evWrite w i k = r at h1 ⊢
+        obtain ⟨w1, o⟩ := r
+        cases o <;> first | exact h | exact h1.evDstream i
+      · split
+        · exact h
+        · exact (h.evDstream i).evWrite i k
+
 /-- events that only use the pool through the managed ops, the stream adapter, handles and `pop`;
     the raw `BufferPool::take(id)` / `reset(id)` with an arbitrary id are excluded (finding C07a) -/
 def Ev.safe : Ev → Bool
@@ -1869,6 +1899,8 @@ theorem Inv.step {w : World} (h : Inv w) (e : Ev) (hs : e.safe = true) : Inv (st
   | reset id => simp [Ev.safe] at hs
   | release => exact h.evRelease
   | spin i k => exact h.evSpin i k
+  | wcancel i k => exact h.evWCancel i k
+  | wdstream i k => exact h.evWDstream i k
 
 theorem Inv.run : ∀ (evs : List Ev) {w : World}, Inv w → (∀ e ∈ evs, e.safe = true) → Inv (run w evs)
   | [], w, h, _ => h
